@@ -294,7 +294,7 @@ example : shadowAgree (⟨"gotree", "input", "i", true, 0, "string", "stdin", "s
   decide +kernel
 /-- hypothesis of `isolation_reads`: variable 1 is registered by "gotree a" and by "gotree c" -/
 example : ∃ r ∈ exampleRegs, r.var = 1 ∧ r.path ≠ "gotree a" :=
-  ⟨⟨"gotree c", "cutoff", "c", false, 1, "float64", "0.5", "0.5"⟩, by decide, rfl, by decide⟩
+  ⟨⟨"gotree c", "cutoff", "c", false, 1, "float64", "0.5", "0.5"⟩, by simp [exampleRegs], rfl, by decide⟩
 example : explicitSame exampleRegs ⟨"gotree a", "cut", "c", false, 1, "float64", "0.5", "0.5"⟩
     [(⟨"gotree a", "input", "i", true, 0, "string", "stdin", "stdin"⟩, "file.nw")] [0, 1, 2] = true := by decide
 
